@@ -291,6 +291,28 @@ TEST_DIRS = {
 }
 
 
+def walk_syntactic(E):
+    """walk_with_symlinks is an assumed contract (the consumer prunes `dirs` between the yield and the resumption, which the
+    generator model cannot express); these facts of it are decided on the real source: dirs and files are sorted, ignored
+    directories are removed in place, the triple is yielded BEFORE symlinked sub-directories are followed, and that loop
+    iterates the very list object the consumer prunes."""
+    fdef, _, src = E.find_def('find.walk_with_symlinks')
+    ok = False
+    for loop in [n for n in ast.walk(fdef) if isinstance(n, ast.For) and 'os.walk' in ast.unparse(n.iter)]:
+        body = loop.body
+        texts = [ast.unparse(b) for b in body]
+        yi = [i for i, b in enumerate(body) if isinstance(b, ast.Expr) and isinstance(b.value, ast.Yield)
+              and ast.unparse(b.value.value).replace(' ', '') in ('(dirpath,dirs,files)', 'dirpath,dirs,files')]
+        li = [i for i, b in enumerate(body) if isinstance(b, ast.For) and ast.unparse(b.iter) == 'dirs'
+              and 'walk_with_symlinks' in ast.unparse(b)]
+        pre = '\n'.join(texts[:yi[0]]) if yi else ''
+        ok = (len(yi) == 1 and len(li) == 1 and yi[0] < li[0] and 'dirs.sort()' in pre and 'files.sort()' in pre
+              and 'dirs[:] = [d for d in dirs if d not in options.ignore_dir]' in pre
+              and not any('dirs' in t and ('=' in t.split('\n')[0]) for t in texts[yi[0] + 1:li[0]]))
+    E.syntactic_obligation("walk_with_symlinks sorts dirs and files, drops ignored directories in place, yields the triple and "
+                           "only then follows symlinks among the (consumer-pruned) dirs", ok, props=('C14', 'C15'))
+
+
 def inner_files_rule(E, st, node, args, kws, k):
     from pyvc.state import fresh_val
     L = fresh_val(('list', ('tuple', (('obj', 'Str'), ('obj', 'Str')))), 'inner_files', st)
@@ -365,6 +387,7 @@ def register(E):
     m0 = z3.Const('m0', usort('Module'))
     E.axioms.append(z3.ForAll([m0], mod_path_n(m0) >= 0))
     TEST_DIRS['yield_handler'] = testdirs_yield
+    walk_syntactic(E)
     E.add_contract('find.test_dirs', TEST_DIRS)
     E.add_contract('options.get_options@prefix', PREFIX_SORT)
     E.add_contract('find.find_test_files_', FILES_)
